@@ -1,7 +1,7 @@
 (* C04 — proofs, part 4: interleavings of lock-protected sections, the once-satisfied flag,
    and concrete witnesses (TOCTOU inside Permit, the unguarded partition sentence). *)
 From Coq Require Import List ZArith Bool Lia.
-From Verif Require Import Lib.Interleave C04.Model C04.Spec C04.Proofs C04.Proofs_state C04.Proofs_main.
+From Verif Require Import Lib.Interleave C04.Model C04.Spec C04.Proofs C04.Proofs_state C04.Proofs_rec C04.Proofs_main.
 Import ListNotations.
 Open Scope Z_scope.
 
@@ -277,3 +277,23 @@ Example strict_reject_example :
   map (fun o => (o_res (fst o), o_rejected (fst o))) (run ex3_hdr ops)
   = [(0, []); (0, []); (0, []); (res_wait, []); (res_wait, []); (0, [0])].
 Proof. vm_compute. reflexivity. Qed.
+
+(* non-vacuity of clause 9: a gang (PodGroup, min 3) runs and is satisfied, its group is re-declared,
+   pods and PodGroup are deleted, and the gang is submitted again under the same name: the new gang is
+   not satisfied, its first member waits in Permit, and the map holds exactly the fresh record *)
+Definition ex4_hdr : hdr :=
+  mkHdr 2 [(1, true); (1, true); (1, true); (1, true)] [dflt_cfg; dflt_cfg].
+Definition ex4_ops : list op :=
+  [PGAdd 1 (mkCfg 3 0 2 [1]); PodAdd 0 false; PodAdd 1 false; PodAdd 2 false;
+   Permit 0; Permit 1; Permit 2; PostBind 0; PostBind 1; PostBind 2;
+   PGUpdate 1 (mkCfg 3 0 2 [1; 2]);
+   PodDelete 0; PodDelete 1; PodDelete 2; PGDelete 1;
+   PGAdd 1 (mkCfg 3 0 2 [1]); PodAdd 3 false; Permit 3].
+Example resubmitted_group_unsatisfied :
+  let l := run ex4_hdr ex4_ops in
+  map (fun o => o_res (fst o)) (firstn 3 (skipn 4 l)) = [res_wait; res_wait; res_success]
+  /\ option_map v_sat (vget (snd (nth 10 l (out0, view init_state))) 1) = Some true
+  /\ sv_recs (snd (nth 14 l (out0, view init_state))) = [([1; 2], false)]
+  /\ option_map (fun o => (o_res (fst o), option_map v_sat (vget (snd o) 1), sv_recs (snd o))) (nth_error l 17)
+     = Some (res_wait, Some false, [([1], false); ([1; 2], false)]).
+Proof. vm_compute. repeat split. Qed.
